@@ -7,6 +7,7 @@ all non-zero quaternions and all 24 Euler conventions, over any field (`2 ≠ 0`
 -/
 import TrimeshVerif.Proofs.Rotation
 import TrimeshVerif.Generated.C19Trace
+import TrimeshVerif.Generated.C19Inverse
 namespace TV.C19
 open TV.Mat3 TV.Generated.C19
 
@@ -437,6 +438,576 @@ theorem C19_transform_points (m00 m01 m02 m03 m10 m11 m12 m13 m20 m21 m22 m23 m3
     tp2_1 n00 n01 n02 n10 n11 n12 n20 n21 n22 y1 y2 = n10 * y1 + n11 * y2 + n12 := by
   simp only [tp3_0, tp3_1, tp3_2, tp3r_0, tp3r_1, tp3r_2, tp2_0, tp2_1]
   refine ⟨?_, ?_, ?_, ?_, ?_, ?_, ?_, ?_⟩ <;> ring
+
+
+/-! ### inverse direction: `euler_from_matrix` (traced, both branches, Generated/C19Inverse.lean)
+
+For every convention the real `euler_from_matrix` is run on a symbolic matrix; its one square root is the symbol
+`sq` (radicand `r_<axes>_rad`), and each `arctan2(y, x)` it returns is recorded as the pair `r_<axes>_y<n>`,
+`r_<axes>_x<n>` (regular branch) or `g_<axes>_…` (gimbal branch).  The theorems substitute
+`M = euler_matrix(ai, aj, ak, axes)` (the traced matrix of the theorems above). -/
+
+open TV.Generated.C19Inv
+
+/-- what it means for `arctan2(Y, X)` to recover an angle with cosine `c` and sine `s`: if
+    `(Y, X) = L · (s, c)` then the point `(X, Y)` lies on the line through the origin with direction `(c, s)`,
+    at signed distance `L` along it - so `arctan2` returns that angle exactly when `L > 0` -/
+theorem C19_atan2_arguments (Y X L c s : K) (h : c ^ 2 + s ^ 2 = 1) (hy : Y = L * s) (hx : X = L * c) :
+    Y * c - X * s = 0 ∧ Y * s + X * c = L ∧ X ^ 2 + Y ^ 2 = L ^ 2 := by
+  subst hy hx
+  refine ⟨by ring, by linear_combination L * h, by linear_combination L ^ 2 * h⟩
+
+/-- **`euler_from_matrix(euler_matrix(ai, aj, ak, 'rxyx'), 'rxyx')`, regular branch**: the radicand is the square of
+    `sin aj` and the arctan2 arguments for `ai`, `ak` are that factor times `(sin, cos)`; the middle pair is `(sin aj, cos aj)`
+    with the root in place of the factor.  So the angles are recovered exactly where the factor is positive -/
+theorem C19_euler_from_matrix_rxyx (c_i s_i c_j s_j c_k s_k sq : K) (hi : c_i ^ 2 + s_i ^ 2 = 1) (hj : c_j ^ 2 + s_j ^ 2 = 1) (hk : c_k ^ 2 + s_k ^ 2 = 1) :
+    r_rxyx_rad (euler_rxyx c_i s_i c_j s_j c_k s_k) = s_j ^ 2 ∧
+    r_rxyx_y0 (euler_rxyx c_i s_i c_j s_j c_k s_k) sq = s_j * s_i ∧
+    r_rxyx_x0 (euler_rxyx c_i s_i c_j s_j c_k s_k) sq = s_j * c_i ∧
+    r_rxyx_y1 (euler_rxyx c_i s_i c_j s_j c_k s_k) sq = sq ∧
+    r_rxyx_x1 (euler_rxyx c_i s_i c_j s_j c_k s_k) sq = c_j ∧
+    r_rxyx_y2 (euler_rxyx c_i s_i c_j s_j c_k s_k) sq = s_j * s_k ∧
+    r_rxyx_x2 (euler_rxyx c_i s_i c_j s_j c_k s_k) sq = s_j * c_k := by
+  have h := r_rxyx_spec c_i s_i c_j s_j c_k s_k sq hi hj hk
+  exact ⟨by linear_combination h.1, by linear_combination h.2.1, by linear_combination h.2.2.1,
+    by linear_combination h.2.2.2.1, by linear_combination h.2.2.2.2.1, by linear_combination h.2.2.2.2.2.1,
+    by linear_combination h.2.2.2.2.2.2⟩
+
+/-- **`euler_from_matrix(euler_matrix(ai, aj, ak, 'rxyz'), 'rxyz')`, regular branch**: the radicand is the square of
+    `cos aj` and the arctan2 arguments for `ai`, `ak` are that factor times `(sin, cos)`; the middle pair is `(sin aj, cos aj)`
+    with the root in place of the factor.  So the angles are recovered exactly where the factor is positive -/
+theorem C19_euler_from_matrix_rxyz (c_i s_i c_j s_j c_k s_k sq : K) (hi : c_i ^ 2 + s_i ^ 2 = 1) (hj : c_j ^ 2 + s_j ^ 2 = 1) (hk : c_k ^ 2 + s_k ^ 2 = 1) :
+    r_rxyz_rad (euler_rxyz c_i s_i c_j s_j c_k s_k) = c_j ^ 2 ∧
+    r_rxyz_y0 (euler_rxyz c_i s_i c_j s_j c_k s_k) sq = c_j * s_i ∧
+    r_rxyz_x0 (euler_rxyz c_i s_i c_j s_j c_k s_k) sq = c_j * c_i ∧
+    r_rxyz_y1 (euler_rxyz c_i s_i c_j s_j c_k s_k) sq = s_j ∧
+    r_rxyz_x1 (euler_rxyz c_i s_i c_j s_j c_k s_k) sq = sq ∧
+    r_rxyz_y2 (euler_rxyz c_i s_i c_j s_j c_k s_k) sq = c_j * s_k ∧
+    r_rxyz_x2 (euler_rxyz c_i s_i c_j s_j c_k s_k) sq = c_j * c_k := by
+  have h := r_rxyz_spec c_i s_i c_j s_j c_k s_k sq hi hj hk
+  exact ⟨by linear_combination h.1, by linear_combination h.2.1, by linear_combination h.2.2.1,
+    by linear_combination h.2.2.2.1, by linear_combination h.2.2.2.2.1, by linear_combination h.2.2.2.2.2.1,
+    by linear_combination h.2.2.2.2.2.2⟩
+
+/-- **`euler_from_matrix(euler_matrix(ai, aj, ak, 'rxzx'), 'rxzx')`, regular branch**: the radicand is the square of
+    `-sin aj` (the three angles are negated after reading: the middle one comes out in (-π, 0)) and the arctan2 arguments for `ai`, `ak` are that factor times `(sin, cos)`; the middle pair is `(sin aj, cos aj)`
+    with the root in place of the factor.  So the angles are recovered exactly where the factor is positive -/
+theorem C19_euler_from_matrix_rxzx (c_i s_i c_j s_j c_k s_k sq : K) (hi : c_i ^ 2 + s_i ^ 2 = 1) (hj : c_j ^ 2 + s_j ^ 2 = 1) (hk : c_k ^ 2 + s_k ^ 2 = 1) :
+    r_rxzx_rad (euler_rxzx c_i s_i c_j s_j c_k s_k) = (-s_j) ^ 2 ∧
+    r_rxzx_y0 (euler_rxzx c_i s_i c_j s_j c_k s_k) sq = (-s_j) * s_i ∧
+    r_rxzx_x0 (euler_rxzx c_i s_i c_j s_j c_k s_k) sq = (-s_j) * c_i ∧
+    r_rxzx_y1 (euler_rxzx c_i s_i c_j s_j c_k s_k) sq = -sq ∧
+    r_rxzx_x1 (euler_rxzx c_i s_i c_j s_j c_k s_k) sq = c_j ∧
+    r_rxzx_y2 (euler_rxzx c_i s_i c_j s_j c_k s_k) sq = (-s_j) * s_k ∧
+    r_rxzx_x2 (euler_rxzx c_i s_i c_j s_j c_k s_k) sq = (-s_j) * c_k := by
+  have h := r_rxzx_spec c_i s_i c_j s_j c_k s_k sq hi hj hk
+  exact ⟨by linear_combination h.1, by linear_combination h.2.1, by linear_combination h.2.2.1,
+    by linear_combination h.2.2.2.1, by linear_combination h.2.2.2.2.1, by linear_combination h.2.2.2.2.2.1,
+    by linear_combination h.2.2.2.2.2.2⟩
+
+/-- **`euler_from_matrix(euler_matrix(ai, aj, ak, 'rxzy'), 'rxzy')`, regular branch**: the radicand is the square of
+    `cos aj` and the arctan2 arguments for `ai`, `ak` are that factor times `(sin, cos)`; the middle pair is `(sin aj, cos aj)`
+    with the root in place of the factor.  So the angles are recovered exactly where the factor is positive -/
+theorem C19_euler_from_matrix_rxzy (c_i s_i c_j s_j c_k s_k sq : K) (hi : c_i ^ 2 + s_i ^ 2 = 1) (hj : c_j ^ 2 + s_j ^ 2 = 1) (hk : c_k ^ 2 + s_k ^ 2 = 1) :
+    r_rxzy_rad (euler_rxzy c_i s_i c_j s_j c_k s_k) = c_j ^ 2 ∧
+    r_rxzy_y0 (euler_rxzy c_i s_i c_j s_j c_k s_k) sq = c_j * s_i ∧
+    r_rxzy_x0 (euler_rxzy c_i s_i c_j s_j c_k s_k) sq = c_j * c_i ∧
+    r_rxzy_y1 (euler_rxzy c_i s_i c_j s_j c_k s_k) sq = s_j ∧
+    r_rxzy_x1 (euler_rxzy c_i s_i c_j s_j c_k s_k) sq = sq ∧
+    r_rxzy_y2 (euler_rxzy c_i s_i c_j s_j c_k s_k) sq = c_j * s_k ∧
+    r_rxzy_x2 (euler_rxzy c_i s_i c_j s_j c_k s_k) sq = c_j * c_k := by
+  have h := r_rxzy_spec c_i s_i c_j s_j c_k s_k sq hi hj hk
+  exact ⟨by linear_combination h.1, by linear_combination h.2.1, by linear_combination h.2.2.1,
+    by linear_combination h.2.2.2.1, by linear_combination h.2.2.2.2.1, by linear_combination h.2.2.2.2.2.1,
+    by linear_combination h.2.2.2.2.2.2⟩
+
+/-- **`euler_from_matrix(euler_matrix(ai, aj, ak, 'ryxy'), 'ryxy')`, regular branch**: the radicand is the square of
+    `-sin aj` (the three angles are negated after reading: the middle one comes out in (-π, 0)) and the arctan2 arguments for `ai`, `ak` are that factor times `(sin, cos)`; the middle pair is `(sin aj, cos aj)`
+    with the root in place of the factor.  So the angles are recovered exactly where the factor is positive -/
+theorem C19_euler_from_matrix_ryxy (c_i s_i c_j s_j c_k s_k sq : K) (hi : c_i ^ 2 + s_i ^ 2 = 1) (hj : c_j ^ 2 + s_j ^ 2 = 1) (hk : c_k ^ 2 + s_k ^ 2 = 1) :
+    r_ryxy_rad (euler_ryxy c_i s_i c_j s_j c_k s_k) = (-s_j) ^ 2 ∧
+    r_ryxy_y0 (euler_ryxy c_i s_i c_j s_j c_k s_k) sq = (-s_j) * s_i ∧
+    r_ryxy_x0 (euler_ryxy c_i s_i c_j s_j c_k s_k) sq = (-s_j) * c_i ∧
+    r_ryxy_y1 (euler_ryxy c_i s_i c_j s_j c_k s_k) sq = -sq ∧
+    r_ryxy_x1 (euler_ryxy c_i s_i c_j s_j c_k s_k) sq = c_j ∧
+    r_ryxy_y2 (euler_ryxy c_i s_i c_j s_j c_k s_k) sq = (-s_j) * s_k ∧
+    r_ryxy_x2 (euler_ryxy c_i s_i c_j s_j c_k s_k) sq = (-s_j) * c_k := by
+  have h := r_ryxy_spec c_i s_i c_j s_j c_k s_k sq hi hj hk
+  exact ⟨by linear_combination h.1, by linear_combination h.2.1, by linear_combination h.2.2.1,
+    by linear_combination h.2.2.2.1, by linear_combination h.2.2.2.2.1, by linear_combination h.2.2.2.2.2.1,
+    by linear_combination h.2.2.2.2.2.2⟩
+
+/-- **`euler_from_matrix(euler_matrix(ai, aj, ak, 'ryxz'), 'ryxz')`, regular branch**: the radicand is the square of
+    `cos aj` and the arctan2 arguments for `ai`, `ak` are that factor times `(sin, cos)`; the middle pair is `(sin aj, cos aj)`
+    with the root in place of the factor.  So the angles are recovered exactly where the factor is positive -/
+theorem C19_euler_from_matrix_ryxz (c_i s_i c_j s_j c_k s_k sq : K) (hi : c_i ^ 2 + s_i ^ 2 = 1) (hj : c_j ^ 2 + s_j ^ 2 = 1) (hk : c_k ^ 2 + s_k ^ 2 = 1) :
+    r_ryxz_rad (euler_ryxz c_i s_i c_j s_j c_k s_k) = c_j ^ 2 ∧
+    r_ryxz_y0 (euler_ryxz c_i s_i c_j s_j c_k s_k) sq = c_j * s_i ∧
+    r_ryxz_x0 (euler_ryxz c_i s_i c_j s_j c_k s_k) sq = c_j * c_i ∧
+    r_ryxz_y1 (euler_ryxz c_i s_i c_j s_j c_k s_k) sq = s_j ∧
+    r_ryxz_x1 (euler_ryxz c_i s_i c_j s_j c_k s_k) sq = sq ∧
+    r_ryxz_y2 (euler_ryxz c_i s_i c_j s_j c_k s_k) sq = c_j * s_k ∧
+    r_ryxz_x2 (euler_ryxz c_i s_i c_j s_j c_k s_k) sq = c_j * c_k := by
+  have h := r_ryxz_spec c_i s_i c_j s_j c_k s_k sq hi hj hk
+  exact ⟨by linear_combination h.1, by linear_combination h.2.1, by linear_combination h.2.2.1,
+    by linear_combination h.2.2.2.1, by linear_combination h.2.2.2.2.1, by linear_combination h.2.2.2.2.2.1,
+    by linear_combination h.2.2.2.2.2.2⟩
+
+/-- **`euler_from_matrix(euler_matrix(ai, aj, ak, 'ryzx'), 'ryzx')`, regular branch**: the radicand is the square of
+    `cos aj` and the arctan2 arguments for `ai`, `ak` are that factor times `(sin, cos)`; the middle pair is `(sin aj, cos aj)`
+    with the root in place of the factor.  So the angles are recovered exactly where the factor is positive -/
+theorem C19_euler_from_matrix_ryzx (c_i s_i c_j s_j c_k s_k sq : K) (hi : c_i ^ 2 + s_i ^ 2 = 1) (hj : c_j ^ 2 + s_j ^ 2 = 1) (hk : c_k ^ 2 + s_k ^ 2 = 1) :
+    r_ryzx_rad (euler_ryzx c_i s_i c_j s_j c_k s_k) = c_j ^ 2 ∧
+    r_ryzx_y0 (euler_ryzx c_i s_i c_j s_j c_k s_k) sq = c_j * s_i ∧
+    r_ryzx_x0 (euler_ryzx c_i s_i c_j s_j c_k s_k) sq = c_j * c_i ∧
+    r_ryzx_y1 (euler_ryzx c_i s_i c_j s_j c_k s_k) sq = s_j ∧
+    r_ryzx_x1 (euler_ryzx c_i s_i c_j s_j c_k s_k) sq = sq ∧
+    r_ryzx_y2 (euler_ryzx c_i s_i c_j s_j c_k s_k) sq = c_j * s_k ∧
+    r_ryzx_x2 (euler_ryzx c_i s_i c_j s_j c_k s_k) sq = c_j * c_k := by
+  have h := r_ryzx_spec c_i s_i c_j s_j c_k s_k sq hi hj hk
+  exact ⟨by linear_combination h.1, by linear_combination h.2.1, by linear_combination h.2.2.1,
+    by linear_combination h.2.2.2.1, by linear_combination h.2.2.2.2.1, by linear_combination h.2.2.2.2.2.1,
+    by linear_combination h.2.2.2.2.2.2⟩
+
+/-- **`euler_from_matrix(euler_matrix(ai, aj, ak, 'ryzy'), 'ryzy')`, regular branch**: the radicand is the square of
+    `sin aj` and the arctan2 arguments for `ai`, `ak` are that factor times `(sin, cos)`; the middle pair is `(sin aj, cos aj)`
+    with the root in place of the factor.  So the angles are recovered exactly where the factor is positive -/
+theorem C19_euler_from_matrix_ryzy (c_i s_i c_j s_j c_k s_k sq : K) (hi : c_i ^ 2 + s_i ^ 2 = 1) (hj : c_j ^ 2 + s_j ^ 2 = 1) (hk : c_k ^ 2 + s_k ^ 2 = 1) :
+    r_ryzy_rad (euler_ryzy c_i s_i c_j s_j c_k s_k) = s_j ^ 2 ∧
+    r_ryzy_y0 (euler_ryzy c_i s_i c_j s_j c_k s_k) sq = s_j * s_i ∧
+    r_ryzy_x0 (euler_ryzy c_i s_i c_j s_j c_k s_k) sq = s_j * c_i ∧
+    r_ryzy_y1 (euler_ryzy c_i s_i c_j s_j c_k s_k) sq = sq ∧
+    r_ryzy_x1 (euler_ryzy c_i s_i c_j s_j c_k s_k) sq = c_j ∧
+    r_ryzy_y2 (euler_ryzy c_i s_i c_j s_j c_k s_k) sq = s_j * s_k ∧
+    r_ryzy_x2 (euler_ryzy c_i s_i c_j s_j c_k s_k) sq = s_j * c_k := by
+  have h := r_ryzy_spec c_i s_i c_j s_j c_k s_k sq hi hj hk
+  exact ⟨by linear_combination h.1, by linear_combination h.2.1, by linear_combination h.2.2.1,
+    by linear_combination h.2.2.2.1, by linear_combination h.2.2.2.2.1, by linear_combination h.2.2.2.2.2.1,
+    by linear_combination h.2.2.2.2.2.2⟩
+
+/-- **`euler_from_matrix(euler_matrix(ai, aj, ak, 'rzxy'), 'rzxy')`, regular branch**: the radicand is the square of
+    `cos aj` and the arctan2 arguments for `ai`, `ak` are that factor times `(sin, cos)`; the middle pair is `(sin aj, cos aj)`
+    with the root in place of the factor.  So the angles are recovered exactly where the factor is positive -/
+theorem C19_euler_from_matrix_rzxy (c_i s_i c_j s_j c_k s_k sq : K) (hi : c_i ^ 2 + s_i ^ 2 = 1) (hj : c_j ^ 2 + s_j ^ 2 = 1) (hk : c_k ^ 2 + s_k ^ 2 = 1) :
+    r_rzxy_rad (euler_rzxy c_i s_i c_j s_j c_k s_k) = c_j ^ 2 ∧
+    r_rzxy_y0 (euler_rzxy c_i s_i c_j s_j c_k s_k) sq = c_j * s_i ∧
+    r_rzxy_x0 (euler_rzxy c_i s_i c_j s_j c_k s_k) sq = c_j * c_i ∧
+    r_rzxy_y1 (euler_rzxy c_i s_i c_j s_j c_k s_k) sq = s_j ∧
+    r_rzxy_x1 (euler_rzxy c_i s_i c_j s_j c_k s_k) sq = sq ∧
+    r_rzxy_y2 (euler_rzxy c_i s_i c_j s_j c_k s_k) sq = c_j * s_k ∧
+    r_rzxy_x2 (euler_rzxy c_i s_i c_j s_j c_k s_k) sq = c_j * c_k := by
+  have h := r_rzxy_spec c_i s_i c_j s_j c_k s_k sq hi hj hk
+  exact ⟨by linear_combination h.1, by linear_combination h.2.1, by linear_combination h.2.2.1,
+    by linear_combination h.2.2.2.1, by linear_combination h.2.2.2.2.1, by linear_combination h.2.2.2.2.2.1,
+    by linear_combination h.2.2.2.2.2.2⟩
+
+/-- **`euler_from_matrix(euler_matrix(ai, aj, ak, 'rzxz'), 'rzxz')`, regular branch**: the radicand is the square of
+    `sin aj` and the arctan2 arguments for `ai`, `ak` are that factor times `(sin, cos)`; the middle pair is `(sin aj, cos aj)`
+    with the root in place of the factor.  So the angles are recovered exactly where the factor is positive -/
+theorem C19_euler_from_matrix_rzxz (c_i s_i c_j s_j c_k s_k sq : K) (hi : c_i ^ 2 + s_i ^ 2 = 1) (hj : c_j ^ 2 + s_j ^ 2 = 1) (hk : c_k ^ 2 + s_k ^ 2 = 1) :
+    r_rzxz_rad (euler_rzxz c_i s_i c_j s_j c_k s_k) = s_j ^ 2 ∧
+    r_rzxz_y0 (euler_rzxz c_i s_i c_j s_j c_k s_k) sq = s_j * s_i ∧
+    r_rzxz_x0 (euler_rzxz c_i s_i c_j s_j c_k s_k) sq = s_j * c_i ∧
+    r_rzxz_y1 (euler_rzxz c_i s_i c_j s_j c_k s_k) sq = sq ∧
+    r_rzxz_x1 (euler_rzxz c_i s_i c_j s_j c_k s_k) sq = c_j ∧
+    r_rzxz_y2 (euler_rzxz c_i s_i c_j s_j c_k s_k) sq = s_j * s_k ∧
+    r_rzxz_x2 (euler_rzxz c_i s_i c_j s_j c_k s_k) sq = s_j * c_k := by
+  have h := r_rzxz_spec c_i s_i c_j s_j c_k s_k sq hi hj hk
+  exact ⟨by linear_combination h.1, by linear_combination h.2.1, by linear_combination h.2.2.1,
+    by linear_combination h.2.2.2.1, by linear_combination h.2.2.2.2.1, by linear_combination h.2.2.2.2.2.1,
+    by linear_combination h.2.2.2.2.2.2⟩
+
+/-- **`euler_from_matrix(euler_matrix(ai, aj, ak, 'rzyx'), 'rzyx')`, regular branch**: the radicand is the square of
+    `cos aj` and the arctan2 arguments for `ai`, `ak` are that factor times `(sin, cos)`; the middle pair is `(sin aj, cos aj)`
+    with the root in place of the factor.  So the angles are recovered exactly where the factor is positive -/
+theorem C19_euler_from_matrix_rzyx (c_i s_i c_j s_j c_k s_k sq : K) (hi : c_i ^ 2 + s_i ^ 2 = 1) (hj : c_j ^ 2 + s_j ^ 2 = 1) (hk : c_k ^ 2 + s_k ^ 2 = 1) :
+    r_rzyx_rad (euler_rzyx c_i s_i c_j s_j c_k s_k) = c_j ^ 2 ∧
+    r_rzyx_y0 (euler_rzyx c_i s_i c_j s_j c_k s_k) sq = c_j * s_i ∧
+    r_rzyx_x0 (euler_rzyx c_i s_i c_j s_j c_k s_k) sq = c_j * c_i ∧
+    r_rzyx_y1 (euler_rzyx c_i s_i c_j s_j c_k s_k) sq = s_j ∧
+    r_rzyx_x1 (euler_rzyx c_i s_i c_j s_j c_k s_k) sq = sq ∧
+    r_rzyx_y2 (euler_rzyx c_i s_i c_j s_j c_k s_k) sq = c_j * s_k ∧
+    r_rzyx_x2 (euler_rzyx c_i s_i c_j s_j c_k s_k) sq = c_j * c_k := by
+  have h := r_rzyx_spec c_i s_i c_j s_j c_k s_k sq hi hj hk
+  exact ⟨by linear_combination h.1, by linear_combination h.2.1, by linear_combination h.2.2.1,
+    by linear_combination h.2.2.2.1, by linear_combination h.2.2.2.2.1, by linear_combination h.2.2.2.2.2.1,
+    by linear_combination h.2.2.2.2.2.2⟩
+
+/-- **`euler_from_matrix(euler_matrix(ai, aj, ak, 'rzyz'), 'rzyz')`, regular branch**: the radicand is the square of
+    `-sin aj` (the three angles are negated after reading: the middle one comes out in (-π, 0)) and the arctan2 arguments for `ai`, `ak` are that factor times `(sin, cos)`; the middle pair is `(sin aj, cos aj)`
+    with the root in place of the factor.  So the angles are recovered exactly where the factor is positive -/
+theorem C19_euler_from_matrix_rzyz (c_i s_i c_j s_j c_k s_k sq : K) (hi : c_i ^ 2 + s_i ^ 2 = 1) (hj : c_j ^ 2 + s_j ^ 2 = 1) (hk : c_k ^ 2 + s_k ^ 2 = 1) :
+    r_rzyz_rad (euler_rzyz c_i s_i c_j s_j c_k s_k) = (-s_j) ^ 2 ∧
+    r_rzyz_y0 (euler_rzyz c_i s_i c_j s_j c_k s_k) sq = (-s_j) * s_i ∧
+    r_rzyz_x0 (euler_rzyz c_i s_i c_j s_j c_k s_k) sq = (-s_j) * c_i ∧
+    r_rzyz_y1 (euler_rzyz c_i s_i c_j s_j c_k s_k) sq = -sq ∧
+    r_rzyz_x1 (euler_rzyz c_i s_i c_j s_j c_k s_k) sq = c_j ∧
+    r_rzyz_y2 (euler_rzyz c_i s_i c_j s_j c_k s_k) sq = (-s_j) * s_k ∧
+    r_rzyz_x2 (euler_rzyz c_i s_i c_j s_j c_k s_k) sq = (-s_j) * c_k := by
+  have h := r_rzyz_spec c_i s_i c_j s_j c_k s_k sq hi hj hk
+  exact ⟨by linear_combination h.1, by linear_combination h.2.1, by linear_combination h.2.2.1,
+    by linear_combination h.2.2.2.1, by linear_combination h.2.2.2.2.1, by linear_combination h.2.2.2.2.2.1,
+    by linear_combination h.2.2.2.2.2.2⟩
+
+/-- **`euler_from_matrix(euler_matrix(ai, aj, ak, 'sxyx'), 'sxyx')`, regular branch**: the radicand is the square of
+    `sin aj` and the arctan2 arguments for `ai`, `ak` are that factor times `(sin, cos)`; the middle pair is `(sin aj, cos aj)`
+    with the root in place of the factor.  So the angles are recovered exactly where the factor is positive -/
+theorem C19_euler_from_matrix_sxyx (c_i s_i c_j s_j c_k s_k sq : K) (hi : c_i ^ 2 + s_i ^ 2 = 1) (hj : c_j ^ 2 + s_j ^ 2 = 1) (hk : c_k ^ 2 + s_k ^ 2 = 1) :
+    r_sxyx_rad (euler_sxyx c_i s_i c_j s_j c_k s_k) = s_j ^ 2 ∧
+    r_sxyx_y0 (euler_sxyx c_i s_i c_j s_j c_k s_k) sq = s_j * s_i ∧
+    r_sxyx_x0 (euler_sxyx c_i s_i c_j s_j c_k s_k) sq = s_j * c_i ∧
+    r_sxyx_y1 (euler_sxyx c_i s_i c_j s_j c_k s_k) sq = sq ∧
+    r_sxyx_x1 (euler_sxyx c_i s_i c_j s_j c_k s_k) sq = c_j ∧
+    r_sxyx_y2 (euler_sxyx c_i s_i c_j s_j c_k s_k) sq = s_j * s_k ∧
+    r_sxyx_x2 (euler_sxyx c_i s_i c_j s_j c_k s_k) sq = s_j * c_k := by
+  have h := r_sxyx_spec c_i s_i c_j s_j c_k s_k sq hi hj hk
+  exact ⟨by linear_combination h.1, by linear_combination h.2.1, by linear_combination h.2.2.1,
+    by linear_combination h.2.2.2.1, by linear_combination h.2.2.2.2.1, by linear_combination h.2.2.2.2.2.1,
+    by linear_combination h.2.2.2.2.2.2⟩
+
+/-- **`euler_from_matrix(euler_matrix(ai, aj, ak, 'sxyz'), 'sxyz')`, regular branch**: the radicand is the square of
+    `cos aj` and the arctan2 arguments for `ai`, `ak` are that factor times `(sin, cos)`; the middle pair is `(sin aj, cos aj)`
+    with the root in place of the factor.  So the angles are recovered exactly where the factor is positive -/
+theorem C19_euler_from_matrix_sxyz (c_i s_i c_j s_j c_k s_k sq : K) (hi : c_i ^ 2 + s_i ^ 2 = 1) (hj : c_j ^ 2 + s_j ^ 2 = 1) (hk : c_k ^ 2 + s_k ^ 2 = 1) :
+    r_sxyz_rad (euler_sxyz c_i s_i c_j s_j c_k s_k) = c_j ^ 2 ∧
+    r_sxyz_y0 (euler_sxyz c_i s_i c_j s_j c_k s_k) sq = c_j * s_i ∧
+    r_sxyz_x0 (euler_sxyz c_i s_i c_j s_j c_k s_k) sq = c_j * c_i ∧
+    r_sxyz_y1 (euler_sxyz c_i s_i c_j s_j c_k s_k) sq = s_j ∧
+    r_sxyz_x1 (euler_sxyz c_i s_i c_j s_j c_k s_k) sq = sq ∧
+    r_sxyz_y2 (euler_sxyz c_i s_i c_j s_j c_k s_k) sq = c_j * s_k ∧
+    r_sxyz_x2 (euler_sxyz c_i s_i c_j s_j c_k s_k) sq = c_j * c_k := by
+  have h := r_sxyz_spec c_i s_i c_j s_j c_k s_k sq hi hj hk
+  exact ⟨by linear_combination h.1, by linear_combination h.2.1, by linear_combination h.2.2.1,
+    by linear_combination h.2.2.2.1, by linear_combination h.2.2.2.2.1, by linear_combination h.2.2.2.2.2.1,
+    by linear_combination h.2.2.2.2.2.2⟩
+
+/-- **`euler_from_matrix(euler_matrix(ai, aj, ak, 'sxzx'), 'sxzx')`, regular branch**: the radicand is the square of
+    `-sin aj` (the three angles are negated after reading: the middle one comes out in (-π, 0)) and the arctan2 arguments for `ai`, `ak` are that factor times `(sin, cos)`; the middle pair is `(sin aj, cos aj)`
+    with the root in place of the factor.  So the angles are recovered exactly where the factor is positive -/
+theorem C19_euler_from_matrix_sxzx (c_i s_i c_j s_j c_k s_k sq : K) (hi : c_i ^ 2 + s_i ^ 2 = 1) (hj : c_j ^ 2 + s_j ^ 2 = 1) (hk : c_k ^ 2 + s_k ^ 2 = 1) :
+    r_sxzx_rad (euler_sxzx c_i s_i c_j s_j c_k s_k) = (-s_j) ^ 2 ∧
+    r_sxzx_y0 (euler_sxzx c_i s_i c_j s_j c_k s_k) sq = (-s_j) * s_i ∧
+    r_sxzx_x0 (euler_sxzx c_i s_i c_j s_j c_k s_k) sq = (-s_j) * c_i ∧
+    r_sxzx_y1 (euler_sxzx c_i s_i c_j s_j c_k s_k) sq = -sq ∧
+    r_sxzx_x1 (euler_sxzx c_i s_i c_j s_j c_k s_k) sq = c_j ∧
+    r_sxzx_y2 (euler_sxzx c_i s_i c_j s_j c_k s_k) sq = (-s_j) * s_k ∧
+    r_sxzx_x2 (euler_sxzx c_i s_i c_j s_j c_k s_k) sq = (-s_j) * c_k := by
+  have h := r_sxzx_spec c_i s_i c_j s_j c_k s_k sq hi hj hk
+  exact ⟨by linear_combination h.1, by linear_combination h.2.1, by linear_combination h.2.2.1,
+    by linear_combination h.2.2.2.1, by linear_combination h.2.2.2.2.1, by linear_combination h.2.2.2.2.2.1,
+    by linear_combination h.2.2.2.2.2.2⟩
+
+/-- **`euler_from_matrix(euler_matrix(ai, aj, ak, 'sxzy'), 'sxzy')`, regular branch**: the radicand is the square of
+    `cos aj` and the arctan2 arguments for `ai`, `ak` are that factor times `(sin, cos)`; the middle pair is `(sin aj, cos aj)`
+    with the root in place of the factor.  So the angles are recovered exactly where the factor is positive -/
+theorem C19_euler_from_matrix_sxzy (c_i s_i c_j s_j c_k s_k sq : K) (hi : c_i ^ 2 + s_i ^ 2 = 1) (hj : c_j ^ 2 + s_j ^ 2 = 1) (hk : c_k ^ 2 + s_k ^ 2 = 1) :
+    r_sxzy_rad (euler_sxzy c_i s_i c_j s_j c_k s_k) = c_j ^ 2 ∧
+    r_sxzy_y0 (euler_sxzy c_i s_i c_j s_j c_k s_k) sq = c_j * s_i ∧
+    r_sxzy_x0 (euler_sxzy c_i s_i c_j s_j c_k s_k) sq = c_j * c_i ∧
+    r_sxzy_y1 (euler_sxzy c_i s_i c_j s_j c_k s_k) sq = s_j ∧
+    r_sxzy_x1 (euler_sxzy c_i s_i c_j s_j c_k s_k) sq = sq ∧
+    r_sxzy_y2 (euler_sxzy c_i s_i c_j s_j c_k s_k) sq = c_j * s_k ∧
+    r_sxzy_x2 (euler_sxzy c_i s_i c_j s_j c_k s_k) sq = c_j * c_k := by
+  have h := r_sxzy_spec c_i s_i c_j s_j c_k s_k sq hi hj hk
+  exact ⟨by linear_combination h.1, by linear_combination h.2.1, by linear_combination h.2.2.1,
+    by linear_combination h.2.2.2.1, by linear_combination h.2.2.2.2.1, by linear_combination h.2.2.2.2.2.1,
+    by linear_combination h.2.2.2.2.2.2⟩
+
+/-- **`euler_from_matrix(euler_matrix(ai, aj, ak, 'syxy'), 'syxy')`, regular branch**: the radicand is the square of
+    `-sin aj` (the three angles are negated after reading: the middle one comes out in (-π, 0)) and the arctan2 arguments for `ai`, `ak` are that factor times `(sin, cos)`; the middle pair is `(sin aj, cos aj)`
+    with the root in place of the factor.  So the angles are recovered exactly where the factor is positive -/
+theorem C19_euler_from_matrix_syxy (c_i s_i c_j s_j c_k s_k sq : K) (hi : c_i ^ 2 + s_i ^ 2 = 1) (hj : c_j ^ 2 + s_j ^ 2 = 1) (hk : c_k ^ 2 + s_k ^ 2 = 1) :
+    r_syxy_rad (euler_syxy c_i s_i c_j s_j c_k s_k) = (-s_j) ^ 2 ∧
+    r_syxy_y0 (euler_syxy c_i s_i c_j s_j c_k s_k) sq = (-s_j) * s_i ∧
+    r_syxy_x0 (euler_syxy c_i s_i c_j s_j c_k s_k) sq = (-s_j) * c_i ∧
+    r_syxy_y1 (euler_syxy c_i s_i c_j s_j c_k s_k) sq = -sq ∧
+    r_syxy_x1 (euler_syxy c_i s_i c_j s_j c_k s_k) sq = c_j ∧
+    r_syxy_y2 (euler_syxy c_i s_i c_j s_j c_k s_k) sq = (-s_j) * s_k ∧
+    r_syxy_x2 (euler_syxy c_i s_i c_j s_j c_k s_k) sq = (-s_j) * c_k := by
+  have h := r_syxy_spec c_i s_i c_j s_j c_k s_k sq hi hj hk
+  exact ⟨by linear_combination h.1, by linear_combination h.2.1, by linear_combination h.2.2.1,
+    by linear_combination h.2.2.2.1, by linear_combination h.2.2.2.2.1, by linear_combination h.2.2.2.2.2.1,
+    by linear_combination h.2.2.2.2.2.2⟩
+
+/-- **`euler_from_matrix(euler_matrix(ai, aj, ak, 'syxz'), 'syxz')`, regular branch**: the radicand is the square of
+    `cos aj` and the arctan2 arguments for `ai`, `ak` are that factor times `(sin, cos)`; the middle pair is `(sin aj, cos aj)`
+    with the root in place of the factor.  So the angles are recovered exactly where the factor is positive -/
+theorem C19_euler_from_matrix_syxz (c_i s_i c_j s_j c_k s_k sq : K) (hi : c_i ^ 2 + s_i ^ 2 = 1) (hj : c_j ^ 2 + s_j ^ 2 = 1) (hk : c_k ^ 2 + s_k ^ 2 = 1) :
+    r_syxz_rad (euler_syxz c_i s_i c_j s_j c_k s_k) = c_j ^ 2 ∧
+    r_syxz_y0 (euler_syxz c_i s_i c_j s_j c_k s_k) sq = c_j * s_i ∧
+    r_syxz_x0 (euler_syxz c_i s_i c_j s_j c_k s_k) sq = c_j * c_i ∧
+    r_syxz_y1 (euler_syxz c_i s_i c_j s_j c_k s_k) sq = s_j ∧
+    r_syxz_x1 (euler_syxz c_i s_i c_j s_j c_k s_k) sq = sq ∧
+    r_syxz_y2 (euler_syxz c_i s_i c_j s_j c_k s_k) sq = c_j * s_k ∧
+    r_syxz_x2 (euler_syxz c_i s_i c_j s_j c_k s_k) sq = c_j * c_k := by
+  have h := r_syxz_spec c_i s_i c_j s_j c_k s_k sq hi hj hk
+  exact ⟨by linear_combination h.1, by linear_combination h.2.1, by linear_combination h.2.2.1,
+    by linear_combination h.2.2.2.1, by linear_combination h.2.2.2.2.1, by linear_combination h.2.2.2.2.2.1,
+    by linear_combination h.2.2.2.2.2.2⟩
+
+/-- **`euler_from_matrix(euler_matrix(ai, aj, ak, 'syzx'), 'syzx')`, regular branch**: the radicand is the square of
+    `cos aj` and the arctan2 arguments for `ai`, `ak` are that factor times `(sin, cos)`; the middle pair is `(sin aj, cos aj)`
+    with the root in place of the factor.  So the angles are recovered exactly where the factor is positive -/
+theorem C19_euler_from_matrix_syzx (c_i s_i c_j s_j c_k s_k sq : K) (hi : c_i ^ 2 + s_i ^ 2 = 1) (hj : c_j ^ 2 + s_j ^ 2 = 1) (hk : c_k ^ 2 + s_k ^ 2 = 1) :
+    r_syzx_rad (euler_syzx c_i s_i c_j s_j c_k s_k) = c_j ^ 2 ∧
+    r_syzx_y0 (euler_syzx c_i s_i c_j s_j c_k s_k) sq = c_j * s_i ∧
+    r_syzx_x0 (euler_syzx c_i s_i c_j s_j c_k s_k) sq = c_j * c_i ∧
+    r_syzx_y1 (euler_syzx c_i s_i c_j s_j c_k s_k) sq = s_j ∧
+    r_syzx_x1 (euler_syzx c_i s_i c_j s_j c_k s_k) sq = sq ∧
+    r_syzx_y2 (euler_syzx c_i s_i c_j s_j c_k s_k) sq = c_j * s_k ∧
+    r_syzx_x2 (euler_syzx c_i s_i c_j s_j c_k s_k) sq = c_j * c_k := by
+  have h := r_syzx_spec c_i s_i c_j s_j c_k s_k sq hi hj hk
+  exact ⟨by linear_combination h.1, by linear_combination h.2.1, by linear_combination h.2.2.1,
+    by linear_combination h.2.2.2.1, by linear_combination h.2.2.2.2.1, by linear_combination h.2.2.2.2.2.1,
+    by linear_combination h.2.2.2.2.2.2⟩
+
+/-- **`euler_from_matrix(euler_matrix(ai, aj, ak, 'syzy'), 'syzy')`, regular branch**: the radicand is the square of
+    `sin aj` and the arctan2 arguments for `ai`, `ak` are that factor times `(sin, cos)`; the middle pair is `(sin aj, cos aj)`
+    with the root in place of the factor.  So the angles are recovered exactly where the factor is positive -/
+theorem C19_euler_from_matrix_syzy (c_i s_i c_j s_j c_k s_k sq : K) (hi : c_i ^ 2 + s_i ^ 2 = 1) (hj : c_j ^ 2 + s_j ^ 2 = 1) (hk : c_k ^ 2 + s_k ^ 2 = 1) :
+    r_syzy_rad (euler_syzy c_i s_i c_j s_j c_k s_k) = s_j ^ 2 ∧
+    r_syzy_y0 (euler_syzy c_i s_i c_j s_j c_k s_k) sq = s_j * s_i ∧
+    r_syzy_x0 (euler_syzy c_i s_i c_j s_j c_k s_k) sq = s_j * c_i ∧
+    r_syzy_y1 (euler_syzy c_i s_i c_j s_j c_k s_k) sq = sq ∧
+    r_syzy_x1 (euler_syzy c_i s_i c_j s_j c_k s_k) sq = c_j ∧
+    r_syzy_y2 (euler_syzy c_i s_i c_j s_j c_k s_k) sq = s_j * s_k ∧
+    r_syzy_x2 (euler_syzy c_i s_i c_j s_j c_k s_k) sq = s_j * c_k := by
+  have h := r_syzy_spec c_i s_i c_j s_j c_k s_k sq hi hj hk
+  exact ⟨by linear_combination h.1, by linear_combination h.2.1, by linear_combination h.2.2.1,
+    by linear_combination h.2.2.2.1, by linear_combination h.2.2.2.2.1, by linear_combination h.2.2.2.2.2.1,
+    by linear_combination h.2.2.2.2.2.2⟩
+
+/-- **`euler_from_matrix(euler_matrix(ai, aj, ak, 'szxy'), 'szxy')`, regular branch**: the radicand is the square of
+    `cos aj` and the arctan2 arguments for `ai`, `ak` are that factor times `(sin, cos)`; the middle pair is `(sin aj, cos aj)`
+    with the root in place of the factor.  So the angles are recovered exactly where the factor is positive -/
+theorem C19_euler_from_matrix_szxy (c_i s_i c_j s_j c_k s_k sq : K) (hi : c_i ^ 2 + s_i ^ 2 = 1) (hj : c_j ^ 2 + s_j ^ 2 = 1) (hk : c_k ^ 2 + s_k ^ 2 = 1) :
+    r_szxy_rad (euler_szxy c_i s_i c_j s_j c_k s_k) = c_j ^ 2 ∧
+    r_szxy_y0 (euler_szxy c_i s_i c_j s_j c_k s_k) sq = c_j * s_i ∧
+    r_szxy_x0 (euler_szxy c_i s_i c_j s_j c_k s_k) sq = c_j * c_i ∧
+    r_szxy_y1 (euler_szxy c_i s_i c_j s_j c_k s_k) sq = s_j ∧
+    r_szxy_x1 (euler_szxy c_i s_i c_j s_j c_k s_k) sq = sq ∧
+    r_szxy_y2 (euler_szxy c_i s_i c_j s_j c_k s_k) sq = c_j * s_k ∧
+    r_szxy_x2 (euler_szxy c_i s_i c_j s_j c_k s_k) sq = c_j * c_k := by
+  have h := r_szxy_spec c_i s_i c_j s_j c_k s_k sq hi hj hk
+  exact ⟨by linear_combination h.1, by linear_combination h.2.1, by linear_combination h.2.2.1,
+    by linear_combination h.2.2.2.1, by linear_combination h.2.2.2.2.1, by linear_combination h.2.2.2.2.2.1,
+    by linear_combination h.2.2.2.2.2.2⟩
+
+/-- **`euler_from_matrix(euler_matrix(ai, aj, ak, 'szxz'), 'szxz')`, regular branch**: the radicand is the square of
+    `sin aj` and the arctan2 arguments for `ai`, `ak` are that factor times `(sin, cos)`; the middle pair is `(sin aj, cos aj)`
+    with the root in place of the factor.  So the angles are recovered exactly where the factor is positive -/
+theorem C19_euler_from_matrix_szxz (c_i s_i c_j s_j c_k s_k sq : K) (hi : c_i ^ 2 + s_i ^ 2 = 1) (hj : c_j ^ 2 + s_j ^ 2 = 1) (hk : c_k ^ 2 + s_k ^ 2 = 1) :
+    r_szxz_rad (euler_szxz c_i s_i c_j s_j c_k s_k) = s_j ^ 2 ∧
+    r_szxz_y0 (euler_szxz c_i s_i c_j s_j c_k s_k) sq = s_j * s_i ∧
+    r_szxz_x0 (euler_szxz c_i s_i c_j s_j c_k s_k) sq = s_j * c_i ∧
+    r_szxz_y1 (euler_szxz c_i s_i c_j s_j c_k s_k) sq = sq ∧
+    r_szxz_x1 (euler_szxz c_i s_i c_j s_j c_k s_k) sq = c_j ∧
+    r_szxz_y2 (euler_szxz c_i s_i c_j s_j c_k s_k) sq = s_j * s_k ∧
+    r_szxz_x2 (euler_szxz c_i s_i c_j s_j c_k s_k) sq = s_j * c_k := by
+  have h := r_szxz_spec c_i s_i c_j s_j c_k s_k sq hi hj hk
+  exact ⟨by linear_combination h.1, by linear_combination h.2.1, by linear_combination h.2.2.1,
+    by linear_combination h.2.2.2.1, by linear_combination h.2.2.2.2.1, by linear_combination h.2.2.2.2.2.1,
+    by linear_combination h.2.2.2.2.2.2⟩
+
+/-- **`euler_from_matrix(euler_matrix(ai, aj, ak, 'szyx'), 'szyx')`, regular branch**: the radicand is the square of
+    `cos aj` and the arctan2 arguments for `ai`, `ak` are that factor times `(sin, cos)`; the middle pair is `(sin aj, cos aj)`
+    with the root in place of the factor.  So the angles are recovered exactly where the factor is positive -/
+theorem C19_euler_from_matrix_szyx (c_i s_i c_j s_j c_k s_k sq : K) (hi : c_i ^ 2 + s_i ^ 2 = 1) (hj : c_j ^ 2 + s_j ^ 2 = 1) (hk : c_k ^ 2 + s_k ^ 2 = 1) :
+    r_szyx_rad (euler_szyx c_i s_i c_j s_j c_k s_k) = c_j ^ 2 ∧
+    r_szyx_y0 (euler_szyx c_i s_i c_j s_j c_k s_k) sq = c_j * s_i ∧
+    r_szyx_x0 (euler_szyx c_i s_i c_j s_j c_k s_k) sq = c_j * c_i ∧
+    r_szyx_y1 (euler_szyx c_i s_i c_j s_j c_k s_k) sq = s_j ∧
+    r_szyx_x1 (euler_szyx c_i s_i c_j s_j c_k s_k) sq = sq ∧
+    r_szyx_y2 (euler_szyx c_i s_i c_j s_j c_k s_k) sq = c_j * s_k ∧
+    r_szyx_x2 (euler_szyx c_i s_i c_j s_j c_k s_k) sq = c_j * c_k := by
+  have h := r_szyx_spec c_i s_i c_j s_j c_k s_k sq hi hj hk
+  exact ⟨by linear_combination h.1, by linear_combination h.2.1, by linear_combination h.2.2.1,
+    by linear_combination h.2.2.2.1, by linear_combination h.2.2.2.2.1, by linear_combination h.2.2.2.2.2.1,
+    by linear_combination h.2.2.2.2.2.2⟩
+
+/-- **`euler_from_matrix(euler_matrix(ai, aj, ak, 'szyz'), 'szyz')`, regular branch**: the radicand is the square of
+    `-sin aj` (the three angles are negated after reading: the middle one comes out in (-π, 0)) and the arctan2 arguments for `ai`, `ak` are that factor times `(sin, cos)`; the middle pair is `(sin aj, cos aj)`
+    with the root in place of the factor.  So the angles are recovered exactly where the factor is positive -/
+theorem C19_euler_from_matrix_szyz (c_i s_i c_j s_j c_k s_k sq : K) (hi : c_i ^ 2 + s_i ^ 2 = 1) (hj : c_j ^ 2 + s_j ^ 2 = 1) (hk : c_k ^ 2 + s_k ^ 2 = 1) :
+    r_szyz_rad (euler_szyz c_i s_i c_j s_j c_k s_k) = (-s_j) ^ 2 ∧
+    r_szyz_y0 (euler_szyz c_i s_i c_j s_j c_k s_k) sq = (-s_j) * s_i ∧
+    r_szyz_x0 (euler_szyz c_i s_i c_j s_j c_k s_k) sq = (-s_j) * c_i ∧
+    r_szyz_y1 (euler_szyz c_i s_i c_j s_j c_k s_k) sq = -sq ∧
+    r_szyz_x1 (euler_szyz c_i s_i c_j s_j c_k s_k) sq = c_j ∧
+    r_szyz_y2 (euler_szyz c_i s_i c_j s_j c_k s_k) sq = (-s_j) * s_k ∧
+    r_szyz_x2 (euler_szyz c_i s_i c_j s_j c_k s_k) sq = (-s_j) * c_k := by
+  have h := r_szyz_spec c_i s_i c_j s_j c_k s_k sq hi hj hk
+  exact ⟨by linear_combination h.1, by linear_combination h.2.1, by linear_combination h.2.2.1,
+    by linear_combination h.2.2.2.1, by linear_combination h.2.2.2.2.1, by linear_combination h.2.2.2.2.2.1,
+    by linear_combination h.2.2.2.2.2.2⟩
+
+/-- **gimbal branch, 'rxyx'** (sin aj = 0): one outer angle is returned as 0 and the other as `arctan2(y, x)` with
+    `x² + y² = 1`; these angles rebuild exactly the matrix they were read from (matrix → angles → matrix) -/
+theorem C19_euler_from_matrix_gimbal_rxyx (c_i s_i c_j s_j c_k s_k : K) (hi : c_i ^ 2 + s_i ^ 2 = 1) (hj : c_j ^ 2 + s_j ^ 2 = 1) (hk : c_k ^ 2 + s_k ^ 2 = 1) (hg : s_j = 0) :
+    (g_rxyx_x2 (euler_rxyx c_i s_i c_j s_j c_k s_k) 0) ^ 2 + (g_rxyx_y2 (euler_rxyx c_i s_i c_j s_j c_k s_k) 0) ^ 2 = 1 ∧
+    euler_rxyx 1 0 c_j s_j (g_rxyx_x2 (euler_rxyx c_i s_i c_j s_j c_k s_k) 0) (g_rxyx_y2 (euler_rxyx c_i s_i c_j s_j c_k s_k) 0) = euler_rxyx c_i s_i c_j s_j c_k s_k :=
+  g_rxyx_spec c_i s_i c_j s_j c_k s_k hi hj hk hg
+
+/-- **gimbal branch, 'rxyz'** (cos aj = 0): one outer angle is returned as 0 and the other as `arctan2(y, x)` with
+    `x² + y² = 1`; these angles rebuild exactly the matrix they were read from (matrix → angles → matrix) -/
+theorem C19_euler_from_matrix_gimbal_rxyz (c_i s_i c_j s_j c_k s_k : K) (hi : c_i ^ 2 + s_i ^ 2 = 1) (hj : c_j ^ 2 + s_j ^ 2 = 1) (hk : c_k ^ 2 + s_k ^ 2 = 1) (hg : c_j = 0) :
+    (g_rxyz_x2 (euler_rxyz c_i s_i c_j s_j c_k s_k) 0) ^ 2 + (g_rxyz_y2 (euler_rxyz c_i s_i c_j s_j c_k s_k) 0) ^ 2 = 1 ∧
+    euler_rxyz 1 0 c_j s_j (g_rxyz_x2 (euler_rxyz c_i s_i c_j s_j c_k s_k) 0) (g_rxyz_y2 (euler_rxyz c_i s_i c_j s_j c_k s_k) 0) = euler_rxyz c_i s_i c_j s_j c_k s_k :=
+  g_rxyz_spec c_i s_i c_j s_j c_k s_k hi hj hk hg
+
+/-- **gimbal branch, 'rxzx'** (sin aj = 0): one outer angle is returned as 0 and the other as `arctan2(y, x)` with
+    `x² + y² = 1`; these angles rebuild exactly the matrix they were read from (matrix → angles → matrix) -/
+theorem C19_euler_from_matrix_gimbal_rxzx (c_i s_i c_j s_j c_k s_k : K) (hi : c_i ^ 2 + s_i ^ 2 = 1) (hj : c_j ^ 2 + s_j ^ 2 = 1) (hk : c_k ^ 2 + s_k ^ 2 = 1) (hg : s_j = 0) :
+    (g_rxzx_x2 (euler_rxzx c_i s_i c_j s_j c_k s_k) 0) ^ 2 + (g_rxzx_y2 (euler_rxzx c_i s_i c_j s_j c_k s_k) 0) ^ 2 = 1 ∧
+    euler_rxzx 1 0 c_j s_j (g_rxzx_x2 (euler_rxzx c_i s_i c_j s_j c_k s_k) 0) (g_rxzx_y2 (euler_rxzx c_i s_i c_j s_j c_k s_k) 0) = euler_rxzx c_i s_i c_j s_j c_k s_k :=
+  g_rxzx_spec c_i s_i c_j s_j c_k s_k hi hj hk hg
+
+/-- **gimbal branch, 'rxzy'** (cos aj = 0): one outer angle is returned as 0 and the other as `arctan2(y, x)` with
+    `x² + y² = 1`; these angles rebuild exactly the matrix they were read from (matrix → angles → matrix) -/
+theorem C19_euler_from_matrix_gimbal_rxzy (c_i s_i c_j s_j c_k s_k : K) (hi : c_i ^ 2 + s_i ^ 2 = 1) (hj : c_j ^ 2 + s_j ^ 2 = 1) (hk : c_k ^ 2 + s_k ^ 2 = 1) (hg : c_j = 0) :
+    (g_rxzy_x2 (euler_rxzy c_i s_i c_j s_j c_k s_k) 0) ^ 2 + (g_rxzy_y2 (euler_rxzy c_i s_i c_j s_j c_k s_k) 0) ^ 2 = 1 ∧
+    euler_rxzy 1 0 c_j s_j (g_rxzy_x2 (euler_rxzy c_i s_i c_j s_j c_k s_k) 0) (g_rxzy_y2 (euler_rxzy c_i s_i c_j s_j c_k s_k) 0) = euler_rxzy c_i s_i c_j s_j c_k s_k :=
+  g_rxzy_spec c_i s_i c_j s_j c_k s_k hi hj hk hg
+
+/-- **gimbal branch, 'ryxy'** (sin aj = 0): one outer angle is returned as 0 and the other as `arctan2(y, x)` with
+    `x² + y² = 1`; these angles rebuild exactly the matrix they were read from (matrix → angles → matrix) -/
+theorem C19_euler_from_matrix_gimbal_ryxy (c_i s_i c_j s_j c_k s_k : K) (hi : c_i ^ 2 + s_i ^ 2 = 1) (hj : c_j ^ 2 + s_j ^ 2 = 1) (hk : c_k ^ 2 + s_k ^ 2 = 1) (hg : s_j = 0) :
+    (g_ryxy_x2 (euler_ryxy c_i s_i c_j s_j c_k s_k) 0) ^ 2 + (g_ryxy_y2 (euler_ryxy c_i s_i c_j s_j c_k s_k) 0) ^ 2 = 1 ∧
+    euler_ryxy 1 0 c_j s_j (g_ryxy_x2 (euler_ryxy c_i s_i c_j s_j c_k s_k) 0) (g_ryxy_y2 (euler_ryxy c_i s_i c_j s_j c_k s_k) 0) = euler_ryxy c_i s_i c_j s_j c_k s_k :=
+  g_ryxy_spec c_i s_i c_j s_j c_k s_k hi hj hk hg
+
+/-- **gimbal branch, 'ryxz'** (cos aj = 0): one outer angle is returned as 0 and the other as `arctan2(y, x)` with
+    `x² + y² = 1`; these angles rebuild exactly the matrix they were read from (matrix → angles → matrix) -/
+theorem C19_euler_from_matrix_gimbal_ryxz (c_i s_i c_j s_j c_k s_k : K) (hi : c_i ^ 2 + s_i ^ 2 = 1) (hj : c_j ^ 2 + s_j ^ 2 = 1) (hk : c_k ^ 2 + s_k ^ 2 = 1) (hg : c_j = 0) :
+    (g_ryxz_x2 (euler_ryxz c_i s_i c_j s_j c_k s_k) 0) ^ 2 + (g_ryxz_y2 (euler_ryxz c_i s_i c_j s_j c_k s_k) 0) ^ 2 = 1 ∧
+    euler_ryxz 1 0 c_j s_j (g_ryxz_x2 (euler_ryxz c_i s_i c_j s_j c_k s_k) 0) (g_ryxz_y2 (euler_ryxz c_i s_i c_j s_j c_k s_k) 0) = euler_ryxz c_i s_i c_j s_j c_k s_k :=
+  g_ryxz_spec c_i s_i c_j s_j c_k s_k hi hj hk hg
+
+/-- **gimbal branch, 'ryzx'** (cos aj = 0): one outer angle is returned as 0 and the other as `arctan2(y, x)` with
+    `x² + y² = 1`; these angles rebuild exactly the matrix they were read from (matrix → angles → matrix) -/
+theorem C19_euler_from_matrix_gimbal_ryzx (c_i s_i c_j s_j c_k s_k : K) (hi : c_i ^ 2 + s_i ^ 2 = 1) (hj : c_j ^ 2 + s_j ^ 2 = 1) (hk : c_k ^ 2 + s_k ^ 2 = 1) (hg : c_j = 0) :
+    (g_ryzx_x2 (euler_ryzx c_i s_i c_j s_j c_k s_k) 0) ^ 2 + (g_ryzx_y2 (euler_ryzx c_i s_i c_j s_j c_k s_k) 0) ^ 2 = 1 ∧
+    euler_ryzx 1 0 c_j s_j (g_ryzx_x2 (euler_ryzx c_i s_i c_j s_j c_k s_k) 0) (g_ryzx_y2 (euler_ryzx c_i s_i c_j s_j c_k s_k) 0) = euler_ryzx c_i s_i c_j s_j c_k s_k :=
+  g_ryzx_spec c_i s_i c_j s_j c_k s_k hi hj hk hg
+
+/-- **gimbal branch, 'ryzy'** (sin aj = 0): one outer angle is returned as 0 and the other as `arctan2(y, x)` with
+    `x² + y² = 1`; these angles rebuild exactly the matrix they were read from (matrix → angles → matrix) -/
+theorem C19_euler_from_matrix_gimbal_ryzy (c_i s_i c_j s_j c_k s_k : K) (hi : c_i ^ 2 + s_i ^ 2 = 1) (hj : c_j ^ 2 + s_j ^ 2 = 1) (hk : c_k ^ 2 + s_k ^ 2 = 1) (hg : s_j = 0) :
+    (g_ryzy_x2 (euler_ryzy c_i s_i c_j s_j c_k s_k) 0) ^ 2 + (g_ryzy_y2 (euler_ryzy c_i s_i c_j s_j c_k s_k) 0) ^ 2 = 1 ∧
+    euler_ryzy 1 0 c_j s_j (g_ryzy_x2 (euler_ryzy c_i s_i c_j s_j c_k s_k) 0) (g_ryzy_y2 (euler_ryzy c_i s_i c_j s_j c_k s_k) 0) = euler_ryzy c_i s_i c_j s_j c_k s_k :=
+  g_ryzy_spec c_i s_i c_j s_j c_k s_k hi hj hk hg
+
+/-- **gimbal branch, 'rzxy'** (cos aj = 0): one outer angle is returned as 0 and the other as `arctan2(y, x)` with
+    `x² + y² = 1`; these angles rebuild exactly the matrix they were read from (matrix → angles → matrix) -/
+theorem C19_euler_from_matrix_gimbal_rzxy (c_i s_i c_j s_j c_k s_k : K) (hi : c_i ^ 2 + s_i ^ 2 = 1) (hj : c_j ^ 2 + s_j ^ 2 = 1) (hk : c_k ^ 2 + s_k ^ 2 = 1) (hg : c_j = 0) :
+    (g_rzxy_x2 (euler_rzxy c_i s_i c_j s_j c_k s_k) 0) ^ 2 + (g_rzxy_y2 (euler_rzxy c_i s_i c_j s_j c_k s_k) 0) ^ 2 = 1 ∧
+    euler_rzxy 1 0 c_j s_j (g_rzxy_x2 (euler_rzxy c_i s_i c_j s_j c_k s_k) 0) (g_rzxy_y2 (euler_rzxy c_i s_i c_j s_j c_k s_k) 0) = euler_rzxy c_i s_i c_j s_j c_k s_k :=
+  g_rzxy_spec c_i s_i c_j s_j c_k s_k hi hj hk hg
+
+/-- **gimbal branch, 'rzxz'** (sin aj = 0): one outer angle is returned as 0 and the other as `arctan2(y, x)` with
+    `x² + y² = 1`; these angles rebuild exactly the matrix they were read from (matrix → angles → matrix) -/
+theorem C19_euler_from_matrix_gimbal_rzxz (c_i s_i c_j s_j c_k s_k : K) (hi : c_i ^ 2 + s_i ^ 2 = 1) (hj : c_j ^ 2 + s_j ^ 2 = 1) (hk : c_k ^ 2 + s_k ^ 2 = 1) (hg : s_j = 0) :
+    (g_rzxz_x2 (euler_rzxz c_i s_i c_j s_j c_k s_k) 0) ^ 2 + (g_rzxz_y2 (euler_rzxz c_i s_i c_j s_j c_k s_k) 0) ^ 2 = 1 ∧
+    euler_rzxz 1 0 c_j s_j (g_rzxz_x2 (euler_rzxz c_i s_i c_j s_j c_k s_k) 0) (g_rzxz_y2 (euler_rzxz c_i s_i c_j s_j c_k s_k) 0) = euler_rzxz c_i s_i c_j s_j c_k s_k :=
+  g_rzxz_spec c_i s_i c_j s_j c_k s_k hi hj hk hg
+
+/-- **gimbal branch, 'rzyx'** (cos aj = 0): one outer angle is returned as 0 and the other as `arctan2(y, x)` with
+    `x² + y² = 1`; these angles rebuild exactly the matrix they were read from (matrix → angles → matrix) -/
+theorem C19_euler_from_matrix_gimbal_rzyx (c_i s_i c_j s_j c_k s_k : K) (hi : c_i ^ 2 + s_i ^ 2 = 1) (hj : c_j ^ 2 + s_j ^ 2 = 1) (hk : c_k ^ 2 + s_k ^ 2 = 1) (hg : c_j = 0) :
+    (g_rzyx_x2 (euler_rzyx c_i s_i c_j s_j c_k s_k) 0) ^ 2 + (g_rzyx_y2 (euler_rzyx c_i s_i c_j s_j c_k s_k) 0) ^ 2 = 1 ∧
+    euler_rzyx 1 0 c_j s_j (g_rzyx_x2 (euler_rzyx c_i s_i c_j s_j c_k s_k) 0) (g_rzyx_y2 (euler_rzyx c_i s_i c_j s_j c_k s_k) 0) = euler_rzyx c_i s_i c_j s_j c_k s_k :=
+  g_rzyx_spec c_i s_i c_j s_j c_k s_k hi hj hk hg
+
+/-- **gimbal branch, 'rzyz'** (sin aj = 0): one outer angle is returned as 0 and the other as `arctan2(y, x)` with
+    `x² + y² = 1`; these angles rebuild exactly the matrix they were read from (matrix → angles → matrix) -/
+theorem C19_euler_from_matrix_gimbal_rzyz (c_i s_i c_j s_j c_k s_k : K) (hi : c_i ^ 2 + s_i ^ 2 = 1) (hj : c_j ^ 2 + s_j ^ 2 = 1) (hk : c_k ^ 2 + s_k ^ 2 = 1) (hg : s_j = 0) :
+    (g_rzyz_x2 (euler_rzyz c_i s_i c_j s_j c_k s_k) 0) ^ 2 + (g_rzyz_y2 (euler_rzyz c_i s_i c_j s_j c_k s_k) 0) ^ 2 = 1 ∧
+    euler_rzyz 1 0 c_j s_j (g_rzyz_x2 (euler_rzyz c_i s_i c_j s_j c_k s_k) 0) (g_rzyz_y2 (euler_rzyz c_i s_i c_j s_j c_k s_k) 0) = euler_rzyz c_i s_i c_j s_j c_k s_k :=
+  g_rzyz_spec c_i s_i c_j s_j c_k s_k hi hj hk hg
+
+/-- **gimbal branch, 'sxyx'** (sin aj = 0): one outer angle is returned as 0 and the other as `arctan2(y, x)` with
+    `x² + y² = 1`; these angles rebuild exactly the matrix they were read from (matrix → angles → matrix) -/
+theorem C19_euler_from_matrix_gimbal_sxyx (c_i s_i c_j s_j c_k s_k : K) (hi : c_i ^ 2 + s_i ^ 2 = 1) (hj : c_j ^ 2 + s_j ^ 2 = 1) (hk : c_k ^ 2 + s_k ^ 2 = 1) (hg : s_j = 0) :
+    (g_sxyx_x0 (euler_sxyx c_i s_i c_j s_j c_k s_k) 0) ^ 2 + (g_sxyx_y0 (euler_sxyx c_i s_i c_j s_j c_k s_k) 0) ^ 2 = 1 ∧
+    euler_sxyx (g_sxyx_x0 (euler_sxyx c_i s_i c_j s_j c_k s_k) 0) (g_sxyx_y0 (euler_sxyx c_i s_i c_j s_j c_k s_k) 0) c_j s_j 1 0 = euler_sxyx c_i s_i c_j s_j c_k s_k :=
+  g_sxyx_spec c_i s_i c_j s_j c_k s_k hi hj hk hg
+
+/-- **gimbal branch, 'sxyz'** (cos aj = 0): one outer angle is returned as 0 and the other as `arctan2(y, x)` with
+    `x² + y² = 1`; these angles rebuild exactly the matrix they were read from (matrix → angles → matrix) -/
+theorem C19_euler_from_matrix_gimbal_sxyz (c_i s_i c_j s_j c_k s_k : K) (hi : c_i ^ 2 + s_i ^ 2 = 1) (hj : c_j ^ 2 + s_j ^ 2 = 1) (hk : c_k ^ 2 + s_k ^ 2 = 1) (hg : c_j = 0) :
+    (g_sxyz_x0 (euler_sxyz c_i s_i c_j s_j c_k s_k) 0) ^ 2 + (g_sxyz_y0 (euler_sxyz c_i s_i c_j s_j c_k s_k) 0) ^ 2 = 1 ∧
+    euler_sxyz (g_sxyz_x0 (euler_sxyz c_i s_i c_j s_j c_k s_k) 0) (g_sxyz_y0 (euler_sxyz c_i s_i c_j s_j c_k s_k) 0) c_j s_j 1 0 = euler_sxyz c_i s_i c_j s_j c_k s_k :=
+  g_sxyz_spec c_i s_i c_j s_j c_k s_k hi hj hk hg
+
+/-- **gimbal branch, 'sxzx'** (sin aj = 0): one outer angle is returned as 0 and the other as `arctan2(y, x)` with
+    `x² + y² = 1`; these angles rebuild exactly the matrix they were read from (matrix → angles → matrix) -/
+theorem C19_euler_from_matrix_gimbal_sxzx (c_i s_i c_j s_j c_k s_k : K) (hi : c_i ^ 2 + s_i ^ 2 = 1) (hj : c_j ^ 2 + s_j ^ 2 = 1) (hk : c_k ^ 2 + s_k ^ 2 = 1) (hg : s_j = 0) :
+    (g_sxzx_x0 (euler_sxzx c_i s_i c_j s_j c_k s_k) 0) ^ 2 + (g_sxzx_y0 (euler_sxzx c_i s_i c_j s_j c_k s_k) 0) ^ 2 = 1 ∧
+    euler_sxzx (g_sxzx_x0 (euler_sxzx c_i s_i c_j s_j c_k s_k) 0) (g_sxzx_y0 (euler_sxzx c_i s_i c_j s_j c_k s_k) 0) c_j s_j 1 0 = euler_sxzx c_i s_i c_j s_j c_k s_k :=
+  g_sxzx_spec c_i s_i c_j s_j c_k s_k hi hj hk hg
+
+/-- **gimbal branch, 'sxzy'** (cos aj = 0): one outer angle is returned as 0 and the other as `arctan2(y, x)` with
+    `x² + y² = 1`; these angles rebuild exactly the matrix they were read from (matrix → angles → matrix) -/
+theorem C19_euler_from_matrix_gimbal_sxzy (c_i s_i c_j s_j c_k s_k : K) (hi : c_i ^ 2 + s_i ^ 2 = 1) (hj : c_j ^ 2 + s_j ^ 2 = 1) (hk : c_k ^ 2 + s_k ^ 2 = 1) (hg : c_j = 0) :
+    (g_sxzy_x0 (euler_sxzy c_i s_i c_j s_j c_k s_k) 0) ^ 2 + (g_sxzy_y0 (euler_sxzy c_i s_i c_j s_j c_k s_k) 0) ^ 2 = 1 ∧
+    euler_sxzy (g_sxzy_x0 (euler_sxzy c_i s_i c_j s_j c_k s_k) 0) (g_sxzy_y0 (euler_sxzy c_i s_i c_j s_j c_k s_k) 0) c_j s_j 1 0 = euler_sxzy c_i s_i c_j s_j c_k s_k :=
+  g_sxzy_spec c_i s_i c_j s_j c_k s_k hi hj hk hg
+
+/-- **gimbal branch, 'syxy'** (sin aj = 0): one outer angle is returned as 0 and the other as `arctan2(y, x)` with
+    `x² + y² = 1`; these angles rebuild exactly the matrix they were read from (matrix → angles → matrix) -/
+theorem C19_euler_from_matrix_gimbal_syxy (c_i s_i c_j s_j c_k s_k : K) (hi : c_i ^ 2 + s_i ^ 2 = 1) (hj : c_j ^ 2 + s_j ^ 2 = 1) (hk : c_k ^ 2 + s_k ^ 2 = 1) (hg : s_j = 0) :
+    (g_syxy_x0 (euler_syxy c_i s_i c_j s_j c_k s_k) 0) ^ 2 + (g_syxy_y0 (euler_syxy c_i s_i c_j s_j c_k s_k) 0) ^ 2 = 1 ∧
+    euler_syxy (g_syxy_x0 (euler_syxy c_i s_i c_j s_j c_k s_k) 0) (g_syxy_y0 (euler_syxy c_i s_i c_j s_j c_k s_k) 0) c_j s_j 1 0 = euler_syxy c_i s_i c_j s_j c_k s_k :=
+  g_syxy_spec c_i s_i c_j s_j c_k s_k hi hj hk hg
+
+/-- **gimbal branch, 'syxz'** (cos aj = 0): one outer angle is returned as 0 and the other as `arctan2(y, x)` with
+    `x² + y² = 1`; these angles rebuild exactly the matrix they were read from (matrix → angles → matrix) -/
+theorem C19_euler_from_matrix_gimbal_syxz (c_i s_i c_j s_j c_k s_k : K) (hi : c_i ^ 2 + s_i ^ 2 = 1) (hj : c_j ^ 2 + s_j ^ 2 = 1) (hk : c_k ^ 2 + s_k ^ 2 = 1) (hg : c_j = 0) :
+    (g_syxz_x0 (euler_syxz c_i s_i c_j s_j c_k s_k) 0) ^ 2 + (g_syxz_y0 (euler_syxz c_i s_i c_j s_j c_k s_k) 0) ^ 2 = 1 ∧
+    euler_syxz (g_syxz_x0 (euler_syxz c_i s_i c_j s_j c_k s_k) 0) (g_syxz_y0 (euler_syxz c_i s_i c_j s_j c_k s_k) 0) c_j s_j 1 0 = euler_syxz c_i s_i c_j s_j c_k s_k :=
+  g_syxz_spec c_i s_i c_j s_j c_k s_k hi hj hk hg
+
+/-- **gimbal branch, 'syzx'** (cos aj = 0): one outer angle is returned as 0 and the other as `arctan2(y, x)` with
+    `x² + y² = 1`; these angles rebuild exactly the matrix they were read from (matrix → angles → matrix) -/
+theorem C19_euler_from_matrix_gimbal_syzx (c_i s_i c_j s_j c_k s_k : K) (hi : c_i ^ 2 + s_i ^ 2 = 1) (hj : c_j ^ 2 + s_j ^ 2 = 1) (hk : c_k ^ 2 + s_k ^ 2 = 1) (hg : c_j = 0) :
+    (g_syzx_x0 (euler_syzx c_i s_i c_j s_j c_k s_k) 0) ^ 2 + (g_syzx_y0 (euler_syzx c_i s_i c_j s_j c_k s_k) 0) ^ 2 = 1 ∧
+    euler_syzx (g_syzx_x0 (euler_syzx c_i s_i c_j s_j c_k s_k) 0) (g_syzx_y0 (euler_syzx c_i s_i c_j s_j c_k s_k) 0) c_j s_j 1 0 = euler_syzx c_i s_i c_j s_j c_k s_k :=
+  g_syzx_spec c_i s_i c_j s_j c_k s_k hi hj hk hg
+
+/-- **gimbal branch, 'syzy'** (sin aj = 0): one outer angle is returned as 0 and the other as `arctan2(y, x)` with
+    `x² + y² = 1`; these angles rebuild exactly the matrix they were read from (matrix → angles → matrix) -/
+theorem C19_euler_from_matrix_gimbal_syzy (c_i s_i c_j s_j c_k s_k : K) (hi : c_i ^ 2 + s_i ^ 2 = 1) (hj : c_j ^ 2 + s_j ^ 2 = 1) (hk : c_k ^ 2 + s_k ^ 2 = 1) (hg : s_j = 0) :
+    (g_syzy_x0 (euler_syzy c_i s_i c_j s_j c_k s_k) 0) ^ 2 + (g_syzy_y0 (euler_syzy c_i s_i c_j s_j c_k s_k) 0) ^ 2 = 1 ∧
+    euler_syzy (g_syzy_x0 (euler_syzy c_i s_i c_j s_j c_k s_k) 0) (g_syzy_y0 (euler_syzy c_i s_i c_j s_j c_k s_k) 0) c_j s_j 1 0 = euler_syzy c_i s_i c_j s_j c_k s_k :=
+  g_syzy_spec c_i s_i c_j s_j c_k s_k hi hj hk hg
+
+/-- **gimbal branch, 'szxy'** (cos aj = 0): one outer angle is returned as 0 and the other as `arctan2(y, x)` with
+    `x² + y² = 1`; these angles rebuild exactly the matrix they were read from (matrix → angles → matrix) -/
+theorem C19_euler_from_matrix_gimbal_szxy (c_i s_i c_j s_j c_k s_k : K) (hi : c_i ^ 2 + s_i ^ 2 = 1) (hj : c_j ^ 2 + s_j ^ 2 = 1) (hk : c_k ^ 2 + s_k ^ 2 = 1) (hg : c_j = 0) :
+    (g_szxy_x0 (euler_szxy c_i s_i c_j s_j c_k s_k) 0) ^ 2 + (g_szxy_y0 (euler_szxy c_i s_i c_j s_j c_k s_k) 0) ^ 2 = 1 ∧
+    euler_szxy (g_szxy_x0 (euler_szxy c_i s_i c_j s_j c_k s_k) 0) (g_szxy_y0 (euler_szxy c_i s_i c_j s_j c_k s_k) 0) c_j s_j 1 0 = euler_szxy c_i s_i c_j s_j c_k s_k :=
+  g_szxy_spec c_i s_i c_j s_j c_k s_k hi hj hk hg
+
+/-- **gimbal branch, 'szxz'** (sin aj = 0): one outer angle is returned as 0 and the other as `arctan2(y, x)` with
+    `x² + y² = 1`; these angles rebuild exactly the matrix they were read from (matrix → angles → matrix) -/
+theorem C19_euler_from_matrix_gimbal_szxz (c_i s_i c_j s_j c_k s_k : K) (hi : c_i ^ 2 + s_i ^ 2 = 1) (hj : c_j ^ 2 + s_j ^ 2 = 1) (hk : c_k ^ 2 + s_k ^ 2 = 1) (hg : s_j = 0) :
+    (g_szxz_x0 (euler_szxz c_i s_i c_j s_j c_k s_k) 0) ^ 2 + (g_szxz_y0 (euler_szxz c_i s_i c_j s_j c_k s_k) 0) ^ 2 = 1 ∧
+    euler_szxz (g_szxz_x0 (euler_szxz c_i s_i c_j s_j c_k s_k) 0) (g_szxz_y0 (euler_szxz c_i s_i c_j s_j c_k s_k) 0) c_j s_j 1 0 = euler_szxz c_i s_i c_j s_j c_k s_k :=
+  g_szxz_spec c_i s_i c_j s_j c_k s_k hi hj hk hg
+
+/-- **gimbal branch, 'szyx'** (cos aj = 0): one outer angle is returned as 0 and the other as `arctan2(y, x)` with
+    `x² + y² = 1`; these angles rebuild exactly the matrix they were read from (matrix → angles → matrix) -/
+theorem C19_euler_from_matrix_gimbal_szyx (c_i s_i c_j s_j c_k s_k : K) (hi : c_i ^ 2 + s_i ^ 2 = 1) (hj : c_j ^ 2 + s_j ^ 2 = 1) (hk : c_k ^ 2 + s_k ^ 2 = 1) (hg : c_j = 0) :
+    (g_szyx_x0 (euler_szyx c_i s_i c_j s_j c_k s_k) 0) ^ 2 + (g_szyx_y0 (euler_szyx c_i s_i c_j s_j c_k s_k) 0) ^ 2 = 1 ∧
+    euler_szyx (g_szyx_x0 (euler_szyx c_i s_i c_j s_j c_k s_k) 0) (g_szyx_y0 (euler_szyx c_i s_i c_j s_j c_k s_k) 0) c_j s_j 1 0 = euler_szyx c_i s_i c_j s_j c_k s_k :=
+  g_szyx_spec c_i s_i c_j s_j c_k s_k hi hj hk hg
+
+/-- **gimbal branch, 'szyz'** (sin aj = 0): one outer angle is returned as 0 and the other as `arctan2(y, x)` with
+    `x² + y² = 1`; these angles rebuild exactly the matrix they were read from (matrix → angles → matrix) -/
+theorem C19_euler_from_matrix_gimbal_szyz (c_i s_i c_j s_j c_k s_k : K) (hi : c_i ^ 2 + s_i ^ 2 = 1) (hj : c_j ^ 2 + s_j ^ 2 = 1) (hk : c_k ^ 2 + s_k ^ 2 = 1) (hg : s_j = 0) :
+    (g_szyz_x0 (euler_szyz c_i s_i c_j s_j c_k s_k) 0) ^ 2 + (g_szyz_y0 (euler_szyz c_i s_i c_j s_j c_k s_k) 0) ^ 2 = 1 ∧
+    euler_szyz (g_szyz_x0 (euler_szyz c_i s_i c_j s_j c_k s_k) 0) (g_szyz_y0 (euler_szyz c_i s_i c_j s_j c_k s_k) 0) c_j s_j 1 0 = euler_szyz c_i s_i c_j s_j c_k s_k :=
+  g_szyz_spec c_i s_i c_j s_j c_k s_k hi hj hk hg
 
 /-- (G) the axis table of the source still encodes the 24 conventions -/
 theorem C19_axes_table : axes2tuple.length = 24 ∧ nextAxis = [1, 2, 0, 1] := by decide
